@@ -23,13 +23,13 @@ PROPS = {
     "C13": dict(fams=[("hdrgrid", 0, 0), ("enc", 1000, 100000), ("dechdr", 1000, 100000)]),
     "C14": dict(fams=[("keyrt", 600, 30000)], real=[("keysv", 60, 3000)]),
     "C15": dict(fams=[("keygrid", 1500, 150000)]),
-    "C16": dict(fams=[("ecgrid", 0, 0)]),
+    "C16": dict(fams=[("ecgrid", 0, 0), ("ecfault", 0, 0)]),
     "C17": dict(fams=[("newgrid", 0, 0)], real=[("digest", 40, 1000)]),
     "C18": dict(fams=[("v1", 800, 20000), ("vm", 400, 10000), ("cs", 500, 10000), ("he", 300, 5000),
                       ("keygrid", 100, 3000), ("enc", 500, 10000)],
                 real=[("conc", 60, 2000)]),
     "C19": dict(fams=[("hist", 3000, 300000)]),
-    "C20": dict(fams=[("faultgrid", 0, 0), ("s1", 500, 30000), ("sm", 500, 30000), ("cs", 300, 10000),
+    "C20": dict(fams=[("faultgrid", 0, 0), ("ecfault", 0, 0), ("s1", 500, 30000), ("sm", 500, 30000), ("cs", 300, 10000),
                       ("he", 200, 5000)],
                 real=[("entropy", 80, 3000)]),
 }
@@ -56,14 +56,16 @@ DEEP = {
     "C02": ["CoseProofs.Deep.Tbs"],
     "C03": ["CoseProofs.Deep.Tbs"],
     "C04": ["CoseProofs.FactsTie"],
-    "C05": ["CoseProofs.Deep.Reencode"],
+    "C05": ["CoseProofs.Deep.Reencode", "CoseProofs.Deep.Accept"],
     "C06": ["CoseProofs.Deep.NoPanic"],
+    "C07": ["CoseProofs.Deep.Accept"],
     "C08": ["CoseProofs.Deep.Headers"],
     "C09": ["CoseProofs.Deep.Reencode"],
     "C10": ["CoseProofs.Deep.Tbs", "CoseProofs.FactsTie"],
-    "C12": ["CoseProofs.FactsTie"],
+    "C12": ["CoseProofs.Deep.Keys", "CoseProofs.Deep.Chain", "CoseProofs.FactsTie"],
     "C13": ["CoseProofs.Deep.Headers", "CoseProofs.FactsTie"],
-    "C15": ["CoseProofs.FactsTie"],
+    "C14": ["CoseProofs.Deep.Keys"],
+    "C15": ["CoseProofs.Deep.Keys", "CoseProofs.FactsTie"],
     "C17": ["CoseProofs.FactsTie"],
     "C18": ["CoseProofs.FactsTie"],
 }
